@@ -5,6 +5,7 @@ package main
 
 import (
 	"fmt"
+	"os"
 	"go/token"
 	"go/types"
 	"sort"
@@ -325,6 +326,8 @@ func ruleR20(c *Ctx) *RuleResult {
 		scan(fn, 0)
 		if okAll && !direct {
 			r.ok(key, clause, p.FuncPos(fn), fmt.Sprintf("library calls: %s", strings.Join(dedup(seen), ", ")))
+		} else if !direct && ro.field != "" && writtenOutDelegation(c, ct, fn, ro.field, ro.callee) {
+			r.ok(key, clause, p.FuncPos(fn), fmt.Sprintf("not a forwarding call, but path for path the inner %s.%s written out on the %s field (normal forms equal after expanding the wrapper's own methods)", ro.field, ro.callee, ro.field))
 		} else {
 			r.bad(key, clause, p.FuncPos(fn), fmt.Sprintf("library calls found: [%s] (direct storage access: %v); expected only %s.%s", strings.Join(dedup(seen), ", "), direct, ro.field, ro.callee))
 		}
@@ -346,4 +349,112 @@ func rolesFor(c *Ctx, prop string) *RuleResult {
 		}
 	}
 	return filter(all, "R20", "ROLES: delegation table rows serving "+prop, n, func(o Obligation) bool { return strings.HasPrefix(o.Key, "R20:"+prop+":") })
+}
+
+// writtenOutDelegation: fn is, path for path, the inner container's operation `callee` written out on the receiver's field:
+// the normal form of fn (the wrapper's own methods expanded) equals the normal form of the inner operation with its receiver
+// replaced by recv.<field>. Fresh objects are named by order of appearance; a result the path knows to be nil is nil.
+func writtenOutDelegation(c *Ctx, ct *types.Named, fn *ssa.Function, field, callee string) bool {
+	p := c.p
+	st, ok := ct.Underlying().(*types.Struct)
+	if !ok {
+		return false
+	}
+	var inner *types.Named
+	for i := 0; i < st.NumFields(); i++ {
+		if st.Field(i).Name() == field {
+			inner = namedOf(st.Field(i).Type())
+		}
+	}
+	if inner == nil {
+		return false
+	}
+	innerFn := methodsOf(p, inner)[callee]
+	if innerFn == nil {
+		return false
+	}
+	own := map[*ssa.Function]bool{}
+	for _, m := range methodsOf(p, ct) {
+		own[m] = true
+	}
+	A := c.GCWith(fn, BuildOpts{Tag: "written-out", Inline: func(cal *ssa.Function) bool {
+		return cal != fn && (own[cal] || (cal.Origin() != nil && own[cal.Origin()]))
+	}})
+	B := c.GC(innerFn)
+	if A.Undecided != "" || B.Undecided != "" || len(A.GCs) != len(B.GCs) {
+		return false
+	}
+	canon := func(g *GC, substRecv bool) string {
+		names := map[string]string{}
+		var conv func(t *Term) *Term
+		conv = func(t *Term) *Term {
+			if substRecv && t.Op == "p" && t.Leaf == "0" {
+				return nodeL("load", "", nodeL("fa", field, leaf("p", "0")))
+			}
+			if t.Op == "new" {
+				n, ok := names[t.Leaf]
+				if !ok {
+					n = "n" + itoa(len(names))
+					names[t.Leaf] = n
+				}
+				return leaf("new", n)
+			}
+			if len(t.Args) == 0 {
+				return t
+			}
+			out := &Term{Op: t.Op, Leaf: t.Leaf, Args: make([]*Term, len(t.Args))}
+			for i, a := range t.Args {
+				out.Args[i] = conv(a)
+			}
+			return out
+		}
+		var parts []string
+		var gs []string
+		// effects first: fresh objects are numbered in program order
+		var es []string
+		for _, ef := range g.Effects {
+			es = append(es, noEpoch(conv(ef)))
+		}
+		nilTerms := map[string]bool{}
+		for _, a := range g.Guards {
+			s := noEpoch(conv(a))
+			gs = append(gs, s)
+			if a.Op == "==" && len(a.Args) == 2 && a.Args[0].String() == "#:nil" {
+				nilTerms[noEpoch(conv(a.Args[1]))] = true
+			}
+		}
+		sort.Strings(gs)
+		ex := conv(g.Exit)
+		if ex.Op == "return" {
+			out := &Term{Op: ex.Op, Leaf: ex.Leaf, Args: make([]*Term, len(ex.Args))}
+			for i, a := range ex.Args {
+				if nilTerms[noEpoch(a)] {
+					out.Args[i] = leaf("#", "nil")
+				} else {
+					out.Args[i] = a
+				}
+			}
+			ex = out
+		}
+		parts = append(parts, strings.Join(gs, " & "), strings.Join(es, " ; "), noEpoch(ex))
+		return strings.Join(parts, " | ")
+	}
+	var as, bs []string
+	for _, g := range A.GCs {
+		as = append(as, canon(g, false))
+	}
+	for _, g := range B.GCs {
+		bs = append(bs, canon(g, true))
+	}
+	sort.Strings(as)
+	sort.Strings(bs)
+	for i := range as {
+		if as[i] != bs[i] {
+			if os.Getenv("R20_DEBUG") != "" {
+				fmt.Fprintf(os.Stderr, "R20 written-out mismatch:\n  A: %s\n  B: %s\n", as[i], bs[i])
+			}
+			return false
+		}
+	}
+	return true
 }
